@@ -100,7 +100,13 @@ _MINMAX_DOM = re.compile(r"__dom___(?:min|max)(?:_\d+)+")
 def minmax_empty_domain(job: dict, cres: dict, v: dict) -> bool:
     """every failing instance leaves some emitted __dom___{min,max}_<n>_<line> predicate empty in the result
     (the #inf/#sup rule of the chain encoding needs the least/greatest domain element to exist)"""
-    emitted = set(_MINMAX_DOM.findall(cres.get("result_text") or v.get("after") or ""))
+    emitted = set()
+    for line in (cres.get("result_text") or v.get("after") or "").split("\n"):
+        head = line.split(":-")[0].strip()
+        m = _MINMAX_DOM.fullmatch(head.split("(")[0])
+        if m and line.startswith("__dom___m"):
+            arity = 0 if "(" not in head else head.count(",") + 1
+            emitted.add(f"{m.group(0)}/{arity}")
     if not emitted or "bad_aux" not in v:
         return False
     for _, present in v["bad_aux"]:
@@ -330,3 +336,40 @@ def domain_through_negation(job: dict, cres: dict, v: dict) -> bool:
         if re.search(r"not\s+(not\s+)?__dom_", body) or re.search(r":\s*__dom_|__dom_[A-Za-z0-9_]*\([^)]*\)\s*:", body):
             return True
     return False
+
+
+@matcher("source_uses_hardwired_variable")
+def source_uses_hardwired_variable(job: dict, cres: dict, v: dict) -> bool:
+    """the source program itself has a variable called __PREV or __NEXT, the names minmax_chains / sum_chains hard-wire"""
+    return bool(re.search(r"(?<![A-Za-z0-9_])__(PREV|NEXT)(?![A-Za-z0-9_])", job["prog"]))
+
+
+@matcher("invented_equals_declared_output_only")
+def invented_equals_declared_output_only(job: dict, cres: dict, v: dict) -> bool:
+    """an invented predicate coincides with a DECLARED OUTPUT predicate that does not occur in the program (the name
+    generators only know the program and the input predicates)"""
+    m = re.search(r"invented head predicate\(s\) (\[.*\]) coincide", v.get("detail", ""))
+    if not m or cres["out"] == "auto":
+        return False
+    clash = set(eval(m.group(1)))  # pylint: disable=eval-used  (our own repr of a list of tuples)
+    outs = {tuple(p) for p in cres["out"]}
+    ins = {tuple(p) for p in cres["inp"]} if cres["inp"] != "auto" else set()
+    return bool(clash) and clash <= outs - ins
+
+
+@matcher("order_predicate_other_arity")
+def order_predicate_other_arity(job: dict, cres: dict, v: dict) -> bool:
+    """a generated __chain/__min/__max/__next predicate is emitted with another arity than the one its name was reserved
+    for, and the program or the declarations use exactly that name and arity"""
+    m = re.search(r"predicate\(s\) (\[.*\]) got a defining rule", v.get("detail", ""))
+    if not m:
+        return False
+    clash = set(eval(m.group(1)))  # pylint: disable=eval-used
+    return bool(clash) and all(re.match(r"__(chain|min|max|next)_", n) for n, _ in clash)
+
+
+@matcher("source_defines_order_predicate_name")
+def source_defines_order_predicate_name(job: dict, cres: dict, v: dict) -> bool:
+    """the source itself defines a predicate with one of the generated __chain/__min/__max/__next names with an arity
+    that differs from the one the name generator reserved (the arity of the domain predicate +1/+2)"""
+    return bool(re.search(r"(?m)^__(chain|min|max|next)_[A-Za-z0-9_]*\(", job["prog"]))
